@@ -247,7 +247,7 @@ class Ctx:
         e['JENCE_VERIF_TMP'] = os.path.join(BUILD, 'tmp')
         if env: e.update(env)
         for c in chunks:
-            p = subprocess.Popen(['bash', '-c', 'ulimit -s unlimited 2>/dev/null; exec "$0" "$@"', exe] + args, stdin=subprocess.PIPE, stdout=subprocess.PIPE, stderr=subprocess.PIPE, text=True, env=e)
+            p = subprocess.Popen(['bash', '-c', 'ulimit -s unlimited 2>/dev/null; ulimit -v 8000000 2>/dev/null; exec "$0" "$@"', exe] + args, stdin=subprocess.PIPE, stdout=subprocess.PIPE, stderr=subprocess.PIPE, text=True, env=e)
             procs.append(p)
         import threading
         outs = [None] * shards
